@@ -94,7 +94,7 @@ def prog_key(P):
     return json.dumps(P, sort_keys=True)
 
 
-def build_and_run(pid, runs, verdict, ncrates=16, grace_ms=0, extra_run_fields=None, tag="ws"):
+def build_and_run(pid, runs, verdict, ncrates=16, grace_ms=0, extra_run_fields=None, tag="ws", bounds=False):
     """Compiles the distinct programs of `runs`, executes every run, returns list of
     (run, [event json strings]) and build statistics."""
     progs = {}
@@ -115,7 +115,11 @@ def build_and_run(pid, runs, verdict, ncrates=16, grace_ms=0, extra_run_fields=N
         cr = {c: ps for c, ps in cr.items() if ps}
         if not cr:
             break
-        spans = G.write_workspace(ws, cr)
+        G.BOUNDS = bounds
+        try:
+            spans = G.write_workspace(ws, cr)
+        finally:
+            G.BOUNDS = False
         ok, diags, err = G.cargo_build(ws)
         if ok:
             crates = cr
@@ -138,7 +142,12 @@ def build_and_run(pid, runs, verdict, ncrates=16, grace_ms=0, extra_run_fields=N
             bad.add(fn)
             P = byname[fn]
             sig = f"compile|{G.macro_name(P)}|depths={[len(b['steps']) for b in P['branches']]}|{msg.splitlines()[0][:120]}"
-            verdict.violation(sig, {"kind": "compile_error", "prog": P, "macro_source": G.program_fn(fn, P), "diagnostic": msg},
+            G.BOUNDS = bounds
+            try:
+                src = G.program_fn(fn, P)
+            finally:
+                G.BOUNDS = False
+            verdict.violation(sig, {"kind": "compile_error", "prog": P, "macro_source": src, "bounds_mode": bounds, "diagnostic": msg},
                               f"expansion of a generated program does not compile: {msg.splitlines()[0][:160]}")
     else:
         raise C.ToolError("cargo build still failing after removing non-compiling programs")
